@@ -121,6 +121,58 @@ theorem smap_index (items : List Item) : ∀ (s s' : St), Inv s → runItems ite
           rw [show s.code.size + (it.emits + ((rest.take j).map Item.emits).sum) = s.code.size + it.emits + ((rest.take j).map Item.emits).sum by omega]
           exact this
 
+theorem applyItem_lists (it : Item) (s s' : St) (hinv : Inv s) (h : applyItem it s = .ok (⟨⟩, s')) :
+    s'.code.toList = s.code.toList ++ ((Item.record it).map (·.1)).toList
+    ∧ s'.smap.toList = s.smap.toList ++ ((Item.record it).map (·.2)).toList := by
+  obtain ⟨hl, hsz⟩ := hinv
+  have hl' : (s.lock != 0) = false := by simp [hl]
+  cases it with
+  | label t start =>
+    cases hlk : s.labels.lookup (String.ofList (t.toList.take (t.length - 1))) with
+    | some l => simp [applyItem, labelAction, St.label?, hlk] at h
+    | none =>
+      simp only [applyItem, labelAction, bind_apply, get_apply, set_apply, pure_apply, St.label?, hlk,
+        Except.ok.injEq, Prod.mk.injEq, true_and] at h
+      subst h; simp [Item.record]
+  | procBegin n a b =>
+    cases hlk : s.fns.lookup n with
+    | some l => simp [applyItem, procDefAction, hlk] at h
+    | none =>
+      simp only [applyItem, procDefAction, bind_apply, get_apply, set_apply, pure_apply, hlk,
+        Except.ok.injEq, Prod.mk.injEq, true_and] at h
+      subst h; simp [Item.record]
+  | instr line pos =>
+    simp only [applyItem, pushCode_apply, hl', Bool.false_eq_true, if_false, Except.ok.injEq, Prod.mk.injEq, true_and] at h
+    subst h; simp [Item.record]
+  | procEnd stop =>
+    simp only [applyItem, procedureAction, bind_apply, pushCode_apply, hl', Bool.false_eq_true, if_false, pure_apply,
+      Except.ok.injEq, Prod.mk.injEq, true_and] at h
+    subst h; simp [Item.record]
+
+/-- **Source order is preserved** (C11): the instruction list is extended by exactly the lines of the
+    emitting items, in the order of the items, and the source map by their positions -/
+theorem emitted_in_source_order (items : List Item) : ∀ (s s' : St), Inv s → runItems items s = .ok (⟨⟩, s') →
+    s'.code.toList = s.code.toList ++ (items.filterMap Item.record).map (·.1)
+    ∧ s'.smap.toList = s.smap.toList ++ (items.filterMap Item.record).map (·.2) := by
+  induction items with
+  | nil =>
+    intro s s' _ h
+    simp only [runItems, pure_apply, Except.ok.injEq, Prod.mk.injEq, true_and] at h
+    subst h; simp
+  | cons it rest ih =>
+    intro s s' hinv h
+    simp only [runItems, bind_apply] at h
+    cases h1 : applyItem it s with
+    | error e => simp [h1] at h
+    | ok r =>
+      obtain ⟨⟨⟩, s1⟩ := r
+      simp only [h1] at h
+      obtain ⟨hinv1, _, _⟩ := applyItem_map it s s1 hinv h1
+      obtain ⟨hc1, hm1⟩ := applyItem_lists it s s1 hinv h1
+      obtain ⟨hc, hm⟩ := ih s1 s' hinv1 h
+      rw [hc, hm, hc1, hm1]
+      cases hr : Item.record it <;> simp [List.filterMap_cons, hr]
+
 /-- non-vacuity: a start state of the assembler satisfies the invariant -/
 example : Inv ({} : St) := ⟨rfl, rfl⟩
 
